@@ -996,6 +996,10 @@ func canonExpr(info *types.Info, e ast.Expr) string {
 		return canonExpr(info, x.X)
 	case *ast.StarExpr:
 		return canonExpr(info, x.X)
+	case *ast.CallExpr:
+		if id, ok := x.Fun.(*ast.Ident); ok && (id.Name == "len" || id.Name == "cap") && len(x.Args) == 1 {
+			return id.Name + "(" + canonExpr(info, x.Args[0]) + ")"
+		}
 	}
 	return types.ExprString(e)
 }
